@@ -2,6 +2,8 @@ package main
 
 import (
 	"fmt"
+	"os"
+	"runtime/debug"
 	"go/types"
 	"sort"
 	"time"
@@ -219,6 +221,9 @@ func (w *Worker) runDriver(spec *DriverSpec) (res DriverResult) {
 		if r := recover(); r != nil {
 			res.Status = "undecided"
 			res.AbortMsgs = append(res.AbortMsgs, fmt.Sprintf("engine panic: %v", r))
+			if os.Getenv("GOCOSYM_TRACE") != "" {
+				fmt.Fprintf(os.Stderr, "engine panic in %s: %v\n%s\n", spec.Name, r, debug.Stack())
+			}
 			res.Aborted["engine-panic"]++
 		}
 		res.Queries = m.sol.Queries - q0
